@@ -136,6 +136,30 @@ def show(n, depth=0):
     return '<%s>' % k
 
 
+def lower_cleanup_goto(body):
+    """`goto cleanup;` with ONE label in the function, placed at the top level of the body, whose tail ends in a return: every goto
+    is replaced by a copy of the statements from the label to the end (what the jump executes), the label by its statement.  Any other
+    use of goto is left alone (the path engine then answers "inconclusive")."""
+    import copy
+    if not isinstance(body, dict) or body.get('k') != 'CompoundStmt':
+        return
+    top = body.get('c', [])
+    labels = [n for n in walk(body) if n.get('k') == 'LabelStmt']
+    gotos = [n for n in walk(body) if n.get('k') == 'GotoStmt']
+    if len(labels) != 1 or not gotos or labels[0] not in top:
+        return
+    i = top.index(labels[0])
+    first = (labels[0].get('c') or [None])[0]
+    tail = ([first] if isinstance(first, dict) else []) + top[i + 1:]
+    if not tail or tail[-1].get('k') != 'ReturnStmt' or any(g in list(walk({'k': 'CompoundStmt', 'c': tail})) for g in gotos):
+        return
+    for g in gotos:
+        keep = {k: g[k] for k in ('ln', 'col') if k in g}
+        g.clear()
+        g.update({'k': 'CompoundStmt', 'c': copy.deepcopy(tail)}, **keep)
+    top[i:i + 1] = [first] if isinstance(first, dict) else []
+
+
 def canonical_loops(n):
     """`v = a; while (c) { ...; v++; }` (no `continue` in the body) is the same loop as `for (v = a; c; v++) { ... }`: the tree is rewritten
     to the for form, so that every rule sees one loop shape whichever the source uses.  Done once when the facts are loaded."""
@@ -232,6 +256,7 @@ class Program:
                 f['rel'] = self.rel(f['file'])
                 self._fn.setdefault(f['name'], []).append(f)
                 if f.get('body'):
+                    lower_cleanup_goto(f['body'])
                     canonical_loops(f['body'])
             for c_ in u.get('classes', []) or []:
                 for m in c_.get('functions', []):
